@@ -142,30 +142,33 @@ def typeEquals (o : Oracle) (m : Module) (eqView : SView → SView → Bool) (wa
     (List.range (sa.size / es)).all (fun i =>
       typeEquals o m eqView wa wb bo elem (sa.sub (es * i) es) (sb.sub (es * i) es))
 
-/-- The generated `Equals`: parameters, then every physical field: both `has` known, equal
-presence, both present ⇒ `Equals` of the field views.  Virtual fields and aliases are skipped. -/
+/-- the per-field clause of the generated `Equals` (`equals_method_test`): both `has` known, equal
+presence, both present ⇒ `Equals` of the field views; virtual fields and aliases are skipped. -/
+def fieldEquals (o : Oracle) (m : Module) (eqView : SView → SView → Bool) (wa wb : SView) (f : Field) : Bool :=
+  match f.kind with
+  | .phys start size ty bo =>
+    match hasField o wa f, hasField o wb f with
+    | some ha, some hb =>
+      ha == hb &&
+      (!ha ||
+        (match (if argsKnown (envOf o wa none) ty then physStorage o wa f start size else none),
+               (if argsKnown (envOf o wb none) ty then physStorage o wb f start size else none) with
+         | some sa, some sb => typeEquals o m eqView wa wb bo ty sa sb
+         | _, _ => false))
+    | _, _ => false
+  | _ => true
+
+/-- The generated `Equals`: parameters first (`has_p` = `parameters_initialized_`; both present ⇒
+`Read() == Read()`), then every physical field. -/
 def viewEquals (o : Oracle) (m : Module) : Nat → SView → SView → Bool
   | 0, _, _ => false
   | fuel + 1, wa, wb =>
-    -- parameters: has_p = parameters_initialized_; both present ⇒ Read() == Read()
     (wa.sd.params.isEmpty ||
       (match wa.params, wb.params with
        | some pa, some pb => pa == pb
        | none, none => true
        | _, _ => false)) &&
-    wa.sd.fields.all (fun f =>
-      match f.kind with
-      | .phys start size ty bo =>
-        match hasField o wa f, hasField o wb f with
-        | some ha, some hb =>
-          ha == hb &&
-          (!ha ||
-            (match (if argsKnown (envOf o wa none) ty then physStorage o wa f start size else none),
-                   (if argsKnown (envOf o wb none) ty then physStorage o wb f start size else none) with
-             | some sa, some sb => typeEquals o m (viewEquals o m fuel) wa wb bo ty sa sb
-             | _, _ => false))
-        | _, _ => false
-      | _ => true)
+    wa.sd.fields.all (fieldEquals o m (viewEquals o m fuel) wa wb)
 
 /-- `ContiguousBuffer::TryToCopyFrom` on a shared arena (memmove semantics). -/
 def arenaCopy (arena : List Nat) (srcOff dstOff n : Nat) : List Nat :=
